@@ -228,11 +228,16 @@ enum websocket_callback_return text_frame_received_comp(bool is_compressed, stru
 		enum websocket_callback_return ret;
 		size_t have = 0;
 		uint8_t *free_ptr = NULL;
-		uint8_t *in_ptr = strm->next_in;
-		size_t sumLen = read_int_from_array(strm->next_in) - strm->avail_in - 4;
-		memmove(strm->next_in, strm->next_in + 4, sumLen);
+		uint8_t *in_ptr = NULL;
+		size_t sumLen = 0;
+		if (strm->avail_in != 0) {
+			/* Only non-empty frames create the reassembly buffer. */
+			in_ptr = strm->next_in;
+			sumLen = read_int_from_array(in_ptr) - strm->avail_in - 4;
+			memmove(in_ptr, in_ptr + 4, sumLen);
+		}
 
-		ret = private_decompress(s, strm->next_in, sumLen, &free_ptr, &have);
+		ret = private_decompress(s, in_ptr, sumLen, &free_ptr, &have);
 		if (ret == WS_ERROR) {
 			free(in_ptr);
 			return ret;
@@ -278,10 +283,15 @@ enum websocket_callback_return binary_frame_received_comp(bool is_compressed, st
 		enum websocket_callback_return ret;
 		size_t have = 0;
 		uint8_t *free_ptr = NULL;
-		uint8_t *in_ptr = strm->next_in;
-		size_t sumLen = read_int_from_array(strm->next_in) - strm->avail_in - 4;
-		memmove(strm->next_in, strm->next_in + 4, sumLen);
-		ret = private_decompress(s, strm->next_in, sumLen, &free_ptr, &have);
+		uint8_t *in_ptr = NULL;
+		size_t sumLen = 0;
+		if (strm->avail_in != 0) {
+			/* Only non-empty frames create the reassembly buffer. */
+			in_ptr = strm->next_in;
+			sumLen = read_int_from_array(in_ptr) - strm->avail_in - 4;
+			memmove(in_ptr, in_ptr + 4, sumLen);
+		}
+		ret = private_decompress(s, in_ptr, sumLen, &free_ptr, &have);
 		if (ret == WS_ERROR) {
 			free(in_ptr);
 			return ret;
